@@ -95,6 +95,9 @@ OnR ==
                        \/ answers[n] # {}
            flushedNow == IF t = "Tflush" /\ E.type = "Rflush"
                            THEN {m \in 1..(n-1) : sent[m].tag = sent[n].oldtag /\ replied[m] = 0 /\ m \notin away}
+                         ELSE IF t = "Tversion" /\ E.type = "Rversion"
+                           \* a Tversion aborts everything outstanding: those requests get no reply any more
+                           THEN {m \in 1..(n-1) : replied[m] = 0 /\ m \notin away}
                            ELSE {} IN
        /\ ((cands = {}) => Verdict("C07", "reply-after-rflush", <<n, t, E.type>>))
        \* ... and once the client has read the Rflush the old tag has no outstanding request any more (C03)
@@ -196,6 +199,8 @@ OnEnd ==
 OnCrash ==   \* the server process panicked while serving this case: nothing outstanding is answered
   /\ Verdict("C06", "server-crash", E.what)
   /\ Verdict("C03", "server-crash", E.what)
+  \* ... after the client of this case had disconnected: the teardown took every other connection down with it
+  /\ (E.closed => Verdict("C11", "server-crash-after-disconnect", E.what))
   /\ UNCHANGED <<sent, replied, away, answers, called, answeredN, live, maybe, nclosed, cclosed, dseen>>
 
 OnStall ==   \* the server never became quiescent: a goroutine waits for a lock another one holds across a schedule
